@@ -105,7 +105,10 @@ PropExtract(B, q, ret) ==
 (* Part 2: self-certification decision table                                *)
 (* A class is a record                                                      *)
 (*  pfx    shape of the prefix bytes: ok | empty | trunc1..trunc4 (cut      *)
-(*         inside / before field k) | trailing | nonminimal | overlong      *)
+(*         inside / before field k) | trailing | nonminimal | toolong (a    *)
+(*         varint of more than 10 bytes) | overflow (a 10-byte varint whose *)
+(*         tenth byte carries bits beyond 2^64; its low 64 bits spell the   *)
+(*         value the other class fields describe)                           *)
 (*  ver    CID version field: v0 | v1 | v2 | v3 | vbig                      *)
 (*  codec  dagpb (0x70) | raw (0x55) | other                                *)
 (*  hash   multihash code class, see Hashes                                 *)
@@ -120,7 +123,7 @@ CodetableHashes == {"sha2_256", "sha2_512", "sha3_224", "sha3_256", "sha3_384", 
 \* identity / sha1 are real hash functions this build does not compile in; `unassigned`
 \* is a code no hash function is registered for.
 Hashes == CodetableHashes \cup {"identity", "sha1", "unassigned"}
-PfxShapes == {"ok", "empty", "trunc1", "trunc2", "trunc3", "trunc4", "trailing", "nonminimal", "overlong"}
+PfxShapes == {"ok", "empty", "trunc1", "trunc2", "trunc3", "trunc4", "trailing", "nonminimal", "toolong", "overflow"}
 Versions == {"v0", "v1", "v2", "v3", "vbig"}
 Codecs == {"dagpb", "raw", "other"}
 MhLens == {"true", "lying", "over255"}
@@ -137,8 +140,10 @@ CertClasses ==
 \* a CID can be formed from (version, codec, hash)
 CidFormable(c) == c.ver = "v1" \/ (c.ver = "v0" /\ c.codec = "dagpb" /\ c.hash = "sha2_256")
 
-\* Impl: transcription of Prefix::from_bytes + block_to_response
-ImplParses(c) == c.pfx = "ok" /\ c.ver \in {"v0", "v1"} /\ c.mhlen # "over255"
+\* Impl: transcription of Prefix::from_bytes + block_to_response.  The varint reader
+\* (unsigned_varint::decode::u64) drops the bits a tenth byte carries beyond 2^64, so an
+\* `overflow` prefix parses to the same fields as the `ok` prefix it was derived from.
+ImplParses(c) == c.pfx \in {"ok", "overflow"} /\ c.ver \in {"v0", "v1"} /\ c.mhlen # "over255"
 ImplVerdict(c) ==
   IF ImplParses(c) /\ c.hash \in CodetableHashes /\ CidFormable(c) THEN "deliver" ELSE "drop"
 
@@ -154,6 +159,9 @@ PropVerdict(c) ==
   ELSE "either"
 
 Allowed(want, got) == want = "either" \/ want = got
+
+\* recorded finding: an overflowing varint is accepted and the block delivered
+KnownOverflowAccepted(c) == c.pfx = "overflow" /\ ImplVerdict(c) = "deliver"
 
 \* one observed handling of a block of class c: verdict in {deliver, drop, panic};
 \* cidOk: reported CID equals the independent recomputation from the received bytes;
